@@ -522,6 +522,12 @@ func (s *Stage) Recover() {
 				oldest = info.ModTime()
 			}
 			base := strings.TrimSuffix(path, compExt)
+			if s.isStaleWait(cmp, base) {
+				// Not the version this companion describes: finalizing it would
+				// deliver the old content under the new version's hash
+				s.logInfo("Ignoring superseded (recover):", base+waitExt)
+				os.Remove(base + waitExt)
+			}
 			if _, err = os.Stat(base + waitExt); !os.IsNotExist(err) {
 				// .wait
 				s.logDebug("Found ready to finalize:", cmp.Name)
@@ -614,6 +620,24 @@ func (s *Stage) Recover() {
 		close(ch)
 		wg.Wait()
 	}
+}
+
+// isStaleWait tells whether the validated body next to a companion belongs to
+// an earlier version of the file than the companion does.  That is the case
+// when a new version started to arrive while the old one was held back for its
+// predecessor: the companion is replaced with the first part of the new
+// version, the held body only when the new version has been validated.
+func (s *Stage) isStaleWait(cmp *sts.Partial, base string) bool {
+	if _, err := os.Stat(base + waitExt); err != nil {
+		return false
+	}
+	_, errPart := os.Stat(base + partExt)
+	_, errFull := os.Stat(base + fullExt)
+	if errPart != nil && errFull != nil {
+		return false
+	}
+	hash, err := fileutil.FileMD5(base + waitExt)
+	return err == nil && hash != cmp.Hash
 }
 
 // recoverMoved looks for a validated file whose move to the target directory was
